@@ -62,4 +62,6 @@ VARIANTS += [
                                                       "                    if kind == 'type':\n                        is_date = constraint.value == 'date'\n                    elif (is_date and kind in DATE_VALUED_CONSTRAINTS\n                            and constraint.value is not None):")],
       rule='C02-KEYORDER', key='initialize_from_dict'),
     M('C02', 'refactor-date-flag-from-get', E(BS, "            is_date = 'type' in c and c['type'] == 'date'\n", "            is_date = c.get('type') == 'date'\n"), kind='refactor'),
+    M('C02', 'sign-verifier-rejects-booleans', E(BC, "        if type(m) not in (bool, int, long_type, float):", "        if type(m) not in (int, long_type, float):"), rule='C02-VERDICT', key='verify_sign_constraint'),
+    M('C02', 'max-nulls-strict', E(BC, "        result = self.get_null_count(colname) <= value", "        result = self.get_null_count(colname) < value"), rule='C02-VERDICT', key='verify_max_nulls_constraint'),
 ]
